@@ -313,12 +313,33 @@ Definition C02_revision_delete (r : round) : option string :=
     | None => None
     end) (r_events r).
 
+(* every accepted update of a ControllerRevision targets a revision the parent controls, or is the
+   adoption of an orphan (whose rules C04 states); a same-named revision controlled by someone else is
+   never overwritten *)
+Definition C02_revision_write (r : round) : option string :=
+  match k_parent (r_cache r) with
+  | None => None
+  | Some p =>
+      let puid := get_uid p in
+      first_some (fun e =>
+        match is_api e with
+        | Some q =>
+            if String.eqb (q_res q) rev_res && verb_eqb (q_verb q) VUpdate && accepted e then
+              if controlled_by (e_pre e) puid then None else
+              if is_orphan (e_pre e) && controlled_by (e_post e) puid then None else
+              Some "revision-not-controlled-by-the-parent-updated"
+            else None
+        | None => None
+        end) (r_events r)
+  end.
+
 Definition C02_check (c : ccase) : verdict :=
   match first_round_fail (fun r => orelse (C02_round (c_cfg c) (r_cache r) (r_events r))
                                     (orelse (C02_revision_delete r)
+                                    (orelse (C02_revision_write r)
                                             (match k_parent (r_cache r) with
                                              | Some p => C04_incarnation (c_cfg c) (r_cache r) p (r_events r)
-                                             | None => None end))) (c_rounds c) 0 with
+                                             | None => None end)))) (c_rounds c) 0 with
   | Some w => PROPFAIL w
   | None => if ssa (c_cfg c) then OK   (* the server-side-apply memo is process state outside the model *)
             else corr_check proj_writes false c
